@@ -151,6 +151,10 @@ CASES = [
     ("map string", {"type": "map_string", "mapping": {"a": ["p", "q"]}}, R(BASE), R({"sel": {"f": ["p", "q"], "g|contains": ["x", "y"]}, "kw": ["k1", "k2"]})),
     ("set value", {"type": "set_value", "value": "new", "field_name_conditions": [{"type": "include_fields", "fields": ["f"]}]}, R(BASE), R({"sel": {"f": "new", "g|contains": ["x", "y"]}, "kw": ["k1", "k2"]})),
     ("case upper", {"type": "case", "method": "upper"}, R(BASE), R({"sel": {"f": "A", "g|contains": ["X", "Y"]}, "kw": ["K1", "K2"]})),
+    ("case lower on case-sensitive values", {"type": "case", "method": "lower"}, R({"sel": {"f|cased": "AbC", "g|cased|endswith": "\\Pw.EXE", "h|cased|contains": ["X*Y", "z"]}}, "not sel"),
+     R({"sel": {"f|cased": "abc", "g|cased|endswith": "\\pw.exe", "h|cased|contains": ["x*y", "z"]}}, "not sel")),
+    ("replace string (skip_special) on case-sensitive values", {"type": "replace_string", "regex": "b", "replacement": "QQ", "skip_special": True}, R({"sel": {"f|cased": "a*b", "g|cased|startswith": "bb"}}, "sel"),
+     R({"sel": {"f|cased": "a*QQ", "g|cased|startswith": "QQQQ"}}, "sel")),
     ("convert type", {"type": "convert_type", "target_type": "str"}, R({"sel": {"f": 5}}, "sel"), R({"sel": {"f": "5"}}, "sel")),
     ("value placeholders", {"type": "value_placeholders"}, R({"sel": {"f|expand": "a%v%b"}}, "sel"), R({"sel": {"f": ["aV1b", "aV2b"]}}, "sel")),
     ("wildcard placeholders", {"type": "wildcard_placeholders"}, R({"sel": {"f|expand": "a%v%b"}}, "sel"), R({"sel": {"f": "a*b"}}, "sel")),
